@@ -37,7 +37,7 @@ def main():
                 name = "%s-%s%s" % (property_id, tag, version)
                 if not only or name in only or property_id in only:
                     work.append((directory, name, kind))
-    with ThreadPoolExecutor(max_workers=6) as pool:
+    with ThreadPoolExecutor(max_workers=int(os.environ.get("ROUND_WORKERS", "6"))) as pool:
         for name, kind, confirmed, lines, tail in pool.map(evaluate, work):
             target = name.split("-")[0]
             fired = [line.split()[0] for line in lines if " exit  1" in line or "exit 1" in line.replace("  ", " ")]
